@@ -363,8 +363,10 @@ func convertValueToType(val value.Value, expectedType value.Type) (value.Value, 
 	// literals do require reassignment to prevent IsLiteral flag from
 	// propagating into the function argument or return value.
 	// Because of that they are still delegated to Assign function.
+	// The value is copied: arguments and return values are passed by value, so the
+	// parameter must not share the caller's variable.
 	if val.Type() == expectedType && !val.IsLiteral() {
-		return val, nil
+		return val.Copy(), nil
 	}
 	// additional restrictions specific to function calls
 	// on top of what is already enforced by Assign function
